@@ -25,7 +25,9 @@ def model(tokens, nl=NL, ind=IND, ded=DED, opens=OPEN, closes=CLOSE, tab_len=8):
     """tokens: list of (type, value, pos).  Returns list of (type, value, borrowed_pos) and a final status:
     'ok' | 'dedent-error' | 'unmatched-close'.   Written from the statement, not from lark/indenter.py:
       - a newline token inside brackets emits nothing;
-      - otherwise the newline token is passed on; the text after its last '\\n' is the indentation of the next line, tabs count
+      - otherwise the newline token is passed on; a token without a line break, or whose last line holds more than blanks (python.lark
+        folds comments into the newline token: a comment that ends the input), starts no logical line, as for CPython; else
+        the text after its last '\\n' is the indentation of the next line, tabs count
         tab_len; deeper than the innermost open level -> push + one INDENT; shallower -> one DEDENT per level closed, and the
         column reached must be an open level, else DedentError (after the DEDENTs already due);
       - every other token is passed on; brackets adjust the depth;
@@ -39,7 +41,11 @@ def model(tokens, nl=NL, ind=IND, ded=DED, opens=OPEN, closes=CLOSE, tab_len=8):
         if ty == nl:
             if depth == 0:
                 out.append((ty, val, pos))
+                if '\n' not in val:
+                    continue             # no line break in it (a comment that ends the input): no new line starts, nothing changes
                 ws = val.rsplit('\n', 1)[1]
+                if ws.strip(' \t'):
+                    continue             # the last line holds more than blanks (a comment that ends the input): not a logical line
                 col = ws.count(' ') + ws.count('\t') * tab_len
                 if col > levels[-1]:
                     levels.append(col)
@@ -177,6 +183,15 @@ def gen_python(rng, bad_p=0.1):
     if need_block:
         lines.append(gen_ws(rng, levels[-1] + (8 if tabs else 2), tabs) + 'pass')
     src = '\n'.join(lines) + '\n'
+    r = rng.random()
+    if r < 0.06:
+        src = src[:-1]                                                   # the last line of code has no line break
+    elif r < 0.12:
+        src += gen_ws(rng, rng.choice([0, levels[-1], levels[-1] + 2, 1]), tabs and rng.random() < 0.5) + '# trailing comment'   # ... is a comment
+    elif r < 0.16:
+        src = src[:-1] + '  # comment after code'                        # ... ends in a comment after code
+    elif r < 0.21:
+        src += gen_ws(rng, rng.choice([0, levels[-1], levels[-1] + 3, 1, 3]), tabs and rng.random() < 0.5)   # ... is blanks only
     if rng.random() < 0.1:
         src = src.replace('\n', '\r\n')
     return src
@@ -204,7 +219,7 @@ class C18(Check):
                   'simulated': ['the consumer (stops, closes, throws at a seeded token index)', 'the producer (synthetic token lists; lexer failing mid-stream)'],
                   'stubbed': [], 'not_exercised': ['interleaved consumption of two live streams through one Indenter (concurrent use of a stateful post-lexer, excluded by the statement of C10)']}
     ASSUMPTIONS = ['the model is written from the statement; tabs count tab_len; the newline token is itself dropped inside brackets',
-                   'CPython cross-check only on sources whose indentation is purely spaces or purely tabs and that end with a newline (where "tabs counted as tab_len" and CPython\'s rules coincide)',
+                   'CPython cross-check only on sources whose indentation is purely spaces or purely tabs (where "tabs counted as tab_len" and CPython\'s rules coincide) and whose first line is not indented (no newline token precedes it); sources may end without a line break (last line code, code + comment, a comment, or blanks only)',
                    'an unmatched closing bracket is outside the statement: lark raises AssertionError there, the model reports unmatched-close, nothing after it is compared']
 
     def setup(self, tier):
@@ -320,7 +335,12 @@ class C18(Check):
                     outcome = 'parse-error'
                 except AssertionError:
                     outcome = 'unmatched-close'
+                except IndexError:
+                    outcome = 'index-error'
                 out.count('ending:parse/' + outcome)
+                if outcome == 'index-error':
+                    fail('tokens-differ(%s)' % _pred(abnormal_before), si, got_outcome='IndexError from parse()', model_outcome=status, text=st['text'])
+                    break
                 if outcome == 'dedent-error' and status != 'dedent-error':
                     fail('dedent-error-mismatch', si, got='DedentError from parse()', model=status, text=st['text'])
                     break
@@ -349,6 +369,8 @@ class C18(Check):
                 outcome = 'dedent-error'
             except AssertionError:
                 outcome = 'unmatched-close'
+            except IndexError:
+                outcome = 'index-error'
             except UnexpectedCharacters as e:
                 outcome = 'lexer-error'
             except LarkError as e:
@@ -412,6 +434,9 @@ class C18(Check):
 
     def _tokenize_check(self, src, got, outcome, names):
         """nesting depth at every NAME / NUMBER token equals CPython tokenize's; IndentationError <=> DedentError"""
+        first = next((l for l in src.splitlines() if l.strip() and not l.strip().startswith('#')), '')
+        if first[:1] in (' ', '\t'):
+            return None                  # indentation of the very first line: no newline token precedes it, the Indenter never sees it
         py = []
         py_err = None
         depth = 0
@@ -472,8 +497,32 @@ class C18(Check):
                 s['text'] = '\n'.join(ddmin(lines, t, max_tests=60))
         return dict(plan, streams=streams), []
 
+    def fixed_plans(self, tier):
+        import json, glob
+        out = []
+        for path in sorted(glob.glob(os.path.join(core.VERIF, 'replays', 'fixed', 'C18-*.json'))):
+            d = json.load(open(path))
+            out.append((os.path.basename(path)[:-5], d['plan']))
+        return out
+
     def signature(self, plan, violation):
-        return '%s:%s:[%s]' % (violation['kind'], plan['driver'], ','.join(s['end'] for s in plan['streams']))
+        si = violation['detail'].get('stream', 0)
+        st = plan['streams'][si] if si < len(plan['streams']) else {}
+        return '%s:%s:[%s]:%s' % (violation['kind'], plan['driver'], ','.join(s['end'] for s in plan['streams']), _shape(st.get('text')))
+
+
+def _shape(text):
+    """how the failing source ends (part of a known-finding signature, so that only that very shape is recognised)"""
+    if text is None:
+        return 'tokens'
+    if text.endswith(('\n', '\r')):
+        return 'nl-terminated'
+    last = text.replace('\r', '').rsplit('\n', 1)[-1]
+    if not last.strip():
+        return 'eof-blank-tail'
+    if last.strip().startswith('#'):
+        return 'eof-comment-line'
+    return 'eof-code'
 
 
 def _pred(abnormal_before):
